@@ -335,7 +335,9 @@ class World:
             alts = [("fresh", d, v)]
         md = self.moddisk.get(u)
         if md is not None and mt < md["compiled"] + 1:
-            alts.append(("stale-mod", md["dir"], md["version"], md["compiled"]))
+            # (the module may stem from the file of another directory: the template then stands for (d, u)
+            # while it renders what was compiled from (md["dir"], u))
+            alts.append(("stale-mod", md["dir"], md["version"], md["compiled"], d))
         return alts
 
     def _get(self, ev, viols, exceptions):
@@ -461,10 +463,11 @@ class World:
                 f = self.files.get((e["dir"], u))
                 e["valid"] = f
             self.recency[u] = [self.t, self.t]
-            exp_marker = put_marker(u, e["version"]) if e["kind"] == "put" else marker(e["dir"], u, e["version"])
+            exp_marker = put_marker(u, e["version"]) if e["kind"] == "put" else marker(e.get("mdir", e["dir"]), u, e["version"])
             obj = e["obj"]
         elif a[0] in ("fresh", "stale-mod"):
             d, v = a[1], a[2]
+            sd = a[4] if a[0] == "stale-mod" else d  # the directory whose file the template stands for
             compiled_at = self.clock.now if a[0] == "fresh" else a[3]
             if a[0] == "fresh" and self.cfg["moddir"]:
                 self.moddisk[u] = {"version": v, "dir": d, "compiled": self.clock.now}
@@ -475,9 +478,10 @@ class World:
                 "kind": "file",
                 "version": v,
                 "compiled": compiled_at,
-                "dir": d,
+                "dir": sd,
+                "mdir": d,
                 "obj": obj,
-                "valid": self.files[(d, u)],
+                "valid": self.files[(sd, u)],
             }
             self.recency[u] = [self.t, self.t]
             exp_marker = marker(d, u, v)
@@ -567,7 +571,7 @@ class World:
                 cache.append((u, "put", e["version"]))
             else:
                 val = e["valid"]
-                cache.append((u, "file", e["version"], e["dir"], rel[e["compiled"]], (val[0], rel[val[1]]) if val else None))
+                cache.append((u, "file", e["version"], e["dir"], e.get("mdir", e["dir"]), rel[e["compiled"]], (val[0], rel[val[1]]) if val else None))
         # recency: order of the interval endpoints
         pts = sorted({p for iv in self.recency.values() for p in iv})
         rk = {p: i for i, p in enumerate(pts)}
